@@ -16,6 +16,7 @@ import (
 	"github.com/markusressel/fan2go/internal/control_loop"
 	"github.com/markusressel/fan2go/internal/controller"
 	"github.com/markusressel/fan2go/internal/fans"
+	"github.com/markusressel/fan2go/internal/hwmon"
 	"github.com/markusressel/fan2go/internal/util"
 )
 
@@ -55,18 +56,25 @@ type ctrlIn struct {
 	PmName    string   `json:"pm_name,omitempty"` // identity | quant:<q> | plateau (expanded by the driver and by Drv/Ctrl.v)
 	RespQ     int      `json:"resp_q"`
 	Alg       string   `json:"alg"` // direct | limited | pid
-	CfgAlg    string   `json:"cfg_alg,omitempty"` // documented spelling through which the loop is obtained (drv_ctrl_cfg.go); "" = built directly
-	Lim       int      `json:"lim"`
-	P         string   `json:"p"`
-	I         string   `json:"i"`
-	D         string   `json:"d"`
-	NRpm      int      `json:"n_rpm"`
-	HasRpm    bool     `json:"has_rpm"`
-	HasMode   bool     `json:"has_mode"`
-	Pwm0      int      `json:"pwm0"`
-	Mode0     int      `json:"mode0"`
-	Avg0      string   `json:"avg0"` // initial RPM average (hwmon) as hex float; file/cmd: initial Rpm as integer-valued float
-	Hist      []ctrlEv `json:"hist"`
+	// hwmon only: the fan's files are found by the real discovery glue (gosensors stand-in -> hwmon.GetChips ->
+	// UpdateFanConfigFromHwMonControllers -> setFanConfigPaths) on a chip that also carries ANOTHER fan's tachometer
+	// and PWM control: 1 = `index: 1`; 2 = `index: 1` + `pwmChannel: 2`; 3 = `rpmChannel: 2` + `pwmChannel: 1`
+	Glue int `json:"glue,omitempty"`
+	// driver `ctrllag` only: the device is asynchronous — reads of the PWM control in the control cycle that wrote it still
+	// show the previous content; from the next event on the new one (observer-only cases: the model's device reads back at once)
+	Lag     bool     `json:"lag,omitempty"`
+	CfgAlg  string   `json:"cfg_alg,omitempty"` // documented spelling through which the loop is obtained (drv_ctrl_cfg.go); "" = built directly
+	Lim     int      `json:"lim"`
+	P       string   `json:"p"`
+	I       string   `json:"i"`
+	D       string   `json:"d"`
+	NRpm    int      `json:"n_rpm"`
+	HasRpm  bool     `json:"has_rpm"`
+	HasMode bool     `json:"has_mode"`
+	Pwm0    int      `json:"pwm0"`
+	Mode0   int      `json:"mode0"`
+	Avg0    string   `json:"avg0"` // initial RPM average (hwmon) as hex float; file/cmd: initial Rpm as integer-valued float
+	Hist    []ctrlEv `json:"hist"`
 }
 
 type ctrlObs struct {
@@ -86,9 +94,9 @@ type ctrlStubCurve struct {
 	err error
 }
 
-func (c *ctrlStubCurve) GetId() string            { return "stub" }
-func (c *ctrlStubCurve) Evaluate() (int, error)    { return c.v, c.err }
-func (c *ctrlStubCurve) CurrentValue() int         { return c.v }
+func (c *ctrlStubCurve) GetId() string          { return "stub" }
+func (c *ctrlStubCurve) Evaluate() (int, error) { return c.v, c.err }
+func (c *ctrlStubCurve) CurrentValue() int      { return c.v }
 
 func ctrlReadInt(path string, def int) int {
 	b, err := os.ReadFile(path)
@@ -141,6 +149,42 @@ func runCtrl(ctx *Ctx, in ctrlIn) ([]ctrlObs, string) {
 	pwmPath := filepath.Join(dir, "pwm1")
 	enPath := filepath.Join(dir, "pwm1_enable")
 	rpmPath := filepath.Join(dir, "fan1_input")
+	glue := in.Glue
+	if in.Kind != "hwmon" || !in.HasRpm {
+		glue = 0
+	}
+	var glueCfg *configuration.HwMonFanConfig
+	if glue > 0 {
+		root := filepath.Join(dir, "hw")
+		chip := filepath.Join(root, "chip0")
+		os.MkdirAll(chip, 0755)
+		os.WriteFile(filepath.Join(chip, "name"), []byte("verifchip\n"), 0644)
+		os.WriteFile(filepath.Join(root, "order"), []byte("chip0\n"), 0644)
+		rpmCh, pwmCh := 1, 1
+		switch glue {
+		case 1:
+			glueCfg = &configuration.HwMonFanConfig{Platform: "verifchip", Index: 1}
+		case 2:
+			pwmCh = 2
+			glueCfg = &configuration.HwMonFanConfig{Platform: "verifchip", Index: 1, PwmChannel: 2}
+		default:
+			rpmCh = 2
+			glueCfg = &configuration.HwMonFanConfig{Platform: "verifchip", RpmChannel: 2, PwmChannel: 1}
+		}
+		for ch := 1; ch <= 2; ch++ { // the other fan of the chip: turning at 1400 RPM, its own PWM control in automatic mode
+			if ch != rpmCh {
+				os.WriteFile(filepath.Join(chip, "fan"+itoa(ch)+"_input"), []byte("1400\n"), 0644)
+			}
+			if ch != pwmCh {
+				os.WriteFile(filepath.Join(chip, "pwm"+itoa(ch)), []byte("77\n"), 0644)
+				os.WriteFile(filepath.Join(chip, "pwm"+itoa(ch)+"_enable"), []byte("2\n"), 0644)
+			}
+		}
+		pwmPath = filepath.Join(chip, "pwm"+itoa(pwmCh))
+		enPath = filepath.Join(chip, "pwm"+itoa(pwmCh)+"_enable")
+		rpmPath = filepath.Join(chip, "fan"+itoa(rpmCh)+"_input")
+		os.Setenv("VERIF_HWMON_ROOT", root)
+	}
 	failFlag := filepath.Join(dir, "fail_read")
 	failW := filepath.Join(dir, "fail_write")
 	wlog := filepath.Join(dir, "writes.log")
@@ -188,6 +232,12 @@ func runCtrl(ctx *Ctx, in ctrlIn) ([]ctrlObs, string) {
 			os.WriteFile(rpmPath, []byte("0"), 0644)
 		}
 	}
+	if glueCfg != nil {
+		cfg.HwMon = glueCfg
+		if err := hwmon.UpdateFanConfigFromHwMonControllers(hwmon.GetChips(), &cfg); err != nil {
+			panic("glue: " + err.Error())
+		}
+	}
 	fan, err := fans.NewFan(cfg)
 	if err != nil {
 		panic(err)
@@ -229,9 +279,14 @@ func runCtrl(ctx *Ctx, in ctrlIn) ([]ctrlObs, string) {
 	util.VerifVirtualClock = true
 	var writes []int
 	readFail, writeFail, modeFail, rpmFail := false, false, false, false
+	var stale *int
 	util.VerifReadHook = func(path string) ([]byte, error, bool) {
 		if path == pwmPath && readFail {
 			return nil, errors.New("injected read error"), true
+		}
+		if path == pwmPath && in.Lag && stale != nil {
+			// until the current event (control cycle) is over, the control still shows what it held before the write
+			return []byte(itoa(*stale) + "\n"), nil, true
 		}
 		if path == rpmPath && rpmFail {
 			return nil, errors.New("injected read error"), true
@@ -242,6 +297,10 @@ func runCtrl(ctx *Ctx, in ctrlIn) ([]ctrlObs, string) {
 		if path == pwmPath {
 			v, _ := strconv.Atoi(strings.TrimSpace(string(data)))
 			writes = append(writes, v)
+			if in.Lag && !writeFail && stale == nil {
+				prev := ctrlReadInt(pwmPath, -1)
+				stale = &prev
+			}
 			if writeFail {
 				return errors.New("injected write error"), true
 			}
@@ -282,6 +341,7 @@ func runCtrl(ctx *Ctx, in ctrlIn) ([]ctrlObs, string) {
 	for evIdx := range in.Hist {
 		ev := in.Hist[evIdx]
 		writes = nil
+		stale = nil // an asynchronous device has settled by the next event
 		if ev.T == "ext" && ev.Adaptive != "" {
 			if l, ok := c.VerifLastSetPwm(); ok && len(c.VerifDistinct()) > 0 {
 				key := util.FindClosest(l, c.VerifDistinct())
@@ -571,6 +631,8 @@ func genCtrlCase(rng *Rng, mode string, cmdOK bool) (ctrlIn, []string) {
 	}
 	tags = append(tags, "alg="+in.Alg)
 	cfgAlg := rng.Chance(1, 4)
+	glueSel := rng.Intn(12)
+	glueOn := in.Kind == "hwmon" && glueSel < 6 // half of the hwmon cases (when they have an RPM input)
 	in.NRpm = []int{1, 2, 3, 10, 10, 50}[rng.Intn(6)]
 	in.Pwm0 = rng.Range(0, 255)
 	in.Mode0 = []int{0, 1, 2, 2, 3, 5}[rng.Intn(6)]
@@ -726,6 +788,10 @@ func genCtrlCase(rng *Rng, mode string, cmdOK bool) (ctrlIn, []string) {
 			in.Hist = append(in.Hist, ctrlEv{T: "cycle", Curve: ctrlPtr(v), Dt: int64(rng.Range(50, 2000)) * 1e6, ReadOk: true, WriteOk: true, ModeOk: true})
 		}
 	}
+	if glueOn && in.HasRpm {
+		in.Glue = 1 + int(glueSel%3)
+		tags = append(tags, "glue="+itoa(in.Glue))
+	}
 	if cfgAlg {
 		in.CfgAlg = ctrlPickCfgAlg(rng, in)
 		tags = append(tags, "cfg_alg="+in.CfgAlg)
@@ -772,8 +838,22 @@ func ctrlNontrivial(in ctrlIn, obs []ctrlObs) (bool, []string) {
 }
 
 func init() {
-	drivers["ctrl"] = func(ctx *Ctx) {
+	drivers["ctrl"] = func(ctx *Ctx) { ctrlMain(ctx, false) }
+	drivers["ctrllag"] = func(ctx *Ctx) { ctrlMain(ctx, true) }
+}
+
+func ctrlMain(ctx *Ctx, lag bool) {
+	{
 		emit := func(in ctrlIn, tags []string) {
+			if lag {
+				in.Lag = true
+				for _, e := range in.Hist {
+					if e.T == "ext" {
+						return // a foreign writer is not part of the asynchronous-device scenario
+					}
+				}
+				tags = append(tags, "lag")
+			}
 			obs, coq := runCtrl(ctx, in)
 			nt, more := ctrlNontrivial(in, obs)
 			ctx.Emit(Record{In: in, Obs: obs, Coq: coq, Tags: append(tags, more...), NonTrv: nt})
@@ -796,7 +876,7 @@ func init() {
 		cmdEvery := ctx.Param("cmd", 1)
 		for i := 0; i < n; i++ {
 			mode := modes[i%len(modes)]
-			in, tags := genCtrlCase(rng, mode, cmdEvery > 0)
+			in, tags := genCtrlCase(rng, mode, cmdEvery > 0 && !lag)
 			emit(in, tags)
 		}
 		// long constant-curve tails under the default PID algorithm (exploration of C04's PID clause)
